@@ -254,7 +254,11 @@ def wsHandler (l : WsL) (m : HttpConn.Msg) : Nat :=
   else
     match hdrGet m (asc "Sec-WebSocket-Protocol") with
     | none => stBadRequest                                     -- l->proto is set
-    | some p => if containsWord l.proto p then stSwitching else stBadRequest
+    | some p =>
+      -- an empty offer or a list of offers (a ' ' or ',' in the value) is refused: the value is echoed in the
+      -- response, where it has to be a single token
+      if p.isEmpty || p.any (fun c => c = 32 || c = 44) then stBadRequest
+      else if containsWord l.proto p then stSwitching else stBadRequest
 
 /-- what a server connection did with a byte stream -/
 structure WsConnOut where
